@@ -127,7 +127,7 @@ def obj_sweeps(tier, seed, path):
 
 
 def obj_builds(tier, seed, path):
-    return obj_gen.write(path, obj_gen.builds(layout_table(), seed, tier))
+    return obj_gen.write(path, list(obj_gen.builds(layout_table(), seed, tier)) + list(obj_gen.rebuilds_same_size(seed)))
 
 
 def nt_obj_sets(c):
